@@ -35,6 +35,21 @@ func emittingLoggers(c *Ctx) (map[*ssa.Function]bool, string, bool) {
 	}
 	var defv int64
 	fmt.Sscan(def, &defv)
+	// a gate on a logger's own level field says something about the default only if every logger starts at the
+	// package default: New stores the package-level `level` into the field
+	fieldInit := false
+	for _, f := range c.P.RepoFuncs() {
+		if fnPkgPath(f) != stationLogPkg || f.Name() != "New" {
+			continue
+		}
+		for _, st := range fieldStores(f, "log.Logger", "level") {
+			if u, ok := st.Val.(*ssa.UnOp); ok {
+				if g, ok := u.X.(*ssa.Global); ok && g.Name() == "level" {
+					fieldInit = true
+				}
+			}
+		}
+	}
 	var names []string
 	for _, f := range c.P.RepoFuncs() {
 		if fnPkgPath(f) != stationLogPkg || f.Blocks == nil || f.Parent() != nil {
@@ -80,6 +95,9 @@ func emittingLoggers(c *Ctx) (map[*ssa.Function]bool, string, bool) {
 					gated = true
 					if (bo.Op == token.LEQ && defv <= k) || (bo.Op == token.LSS && defv < k) {
 						emits = true
+					}
+					if _, onField := bo.X.(*ssa.UnOp); onField && strings.Contains(pathOf(bo.X), ".") && !fieldInit {
+						emits = true // the field is not known to start at the default: an unset level passes every gate
 					}
 				}
 			}
@@ -161,6 +179,8 @@ func checkC17(c *Ctx) {
 					return 0, ""
 				}
 				return tText, "RemoteAddr() of a connection in station code"
+			case n == "syscall.Getpeername" || n == "golang.org/x/sys/unix.Getpeername":
+				return tText, "peer address of a client socket (getpeername)"
 			case sh == "AcceptTCP" || sh == "Accept":
 				return tConn, "accepted client connection"
 			case sh == "GetRegistrationAddress" && strings.Contains(n, "/proto."):
